@@ -57,6 +57,10 @@ type duplexHTTPCall struct {
 	// its context any longer.
 	done     chan struct{}
 	doneOnce sync.Once
+
+	// beforeRequest, if set, runs once on the goroutine of the first Write or
+	// CloseWrite, right before the request is handed to the HTTP client.
+	beforeRequest func()
 }
 
 func newDuplexHTTPCall(
@@ -276,8 +280,18 @@ func (d *duplexHTTPCall) BlockUntilResponseReady() {
 	verifYield(d.ctx, "ready.woken")
 }
 
+// SetBeforeRequest registers a function that finalizes the request headers at
+// the moment the request is really sent, which may be long after the call was
+// created.
+func (d *duplexHTTPCall) SetBeforeRequest(beforeRequest func()) {
+	d.beforeRequest = beforeRequest
+}
+
 func (d *duplexHTTPCall) ensureRequestMade() {
 	d.sendRequestOnce.Do(func() {
+		if d.beforeRequest != nil {
+			d.beforeRequest()
+		}
 		go d.makeRequest()
 	})
 }
